@@ -11,3 +11,7 @@ mod traits;
 use orderer::CausalOrderer;
 pub use processor::{Orderer, OrdererError};
 pub use traits::Ordering;
+
+/// Verification hook (add-only): the harness drives the crate-private `CausalOrderer` directly.
+#[cfg(p2panda_p2panda_verif)]
+pub use orderer::CausalOrderer as VerifCausalOrderer;
